@@ -1,0 +1,9 @@
+//go:build !verif
+
+package kinesis
+
+// verifListShards lets verification tooling supply the shard listing of a stream
+// instead of calling Kinesis. It is never active in normal builds.
+func verifListShards(exclusiveStartShardID string) ([]SourceSplitterShard, bool) {
+	return nil, false
+}
